@@ -515,29 +515,54 @@ def split_imm32(value):
 
 ARM_ASM_RT = """
 global __sdiv
+global __udiv
+
 __sdiv:
-   ; Divide r1 by r2
-   ; R4 is a work register.
-   ; r0 is the quotient
-   push {r4}
+   ; Signed division: r0 = r1 / r2, rounded towards zero.
+   ; All registers but r0 are preserved.
+   push {r1, r2, r3, lr}
+   eor r3, r1, r2     ; The quotient is negative when the signs differ
+   cmp r1, 0          ; Divide the absolute values
+   bge __sdiv_pos1
+   rsb r1, r1, 0
+__sdiv_pos1:
+   cmp r2, 0
+   bge __sdiv_pos2
+   rsb r2, r2, 0
+__sdiv_pos2:
+   bl __udiv
+   cmp r3, 0
+   bge __sdiv_done
+   rsb r0, r0, 0
+__sdiv_done:
+   pop {r1, r2, r3, pc}
+
+__udiv:
+   ; Unsigned division: r0 = r1 / r2
+   ; All registers but r0 are preserved.
+   ; A division by zero gives 0, like the udiv instruction.
+   push {r1, r4}
+   mov r0, 0          ; Initialize the result
+   cmp r2, 0
+   beq __udiv_done
    mov r4, r2         ; mov divisor into temporary register.
 
    ; Blow up divisor until it is larger than the divident.
    cmp r4, r1, lsr 1  ; If r4 < r1, then, shift left once more.
-__sdiv_inc:
+__udiv_inc:
    movls r4, r4, lsl 1
    cmp r4, r1, lsr 1
-   bls __sdiv_inc
-   mov r0, 0          ; Initialize the result
+   bls __udiv_inc
                       ; Repeatedly substract shifted divisor
-__sdiv_dec:
+__udiv_dec:
    cmp r1, r4         ; Can we substract the current temp value?
    subcs r1, r1, r4   ; Substract temp from divisor if carry
    adc r0, r0, r0     ; double (shift left) and add carry
    mov r4, r4, lsr 1  ; Shift right one
    cmp r4, r2         ; Is temp less than divisor?
-   bhs __sdiv_dec     ; If so, repeat.
+   bhs __udiv_dec     ; If so, repeat.
 
-   pop {r4}
+__udiv_done:
+   pop {r1, r4}
    mov pc, lr         ; Return from function.
 """
